@@ -52,6 +52,7 @@ func drawC01(t *rapid.T, x *X) *Case {
 	g := x.G.Spec
 	c := &Case{Entry: drawEntry(t, g, true)}
 	c.Input = gspec.SampleInput(t, g, entryRuleName(g, c.Entry), alphabetFor(g), 48)
+	longInput(t, x, c)
 	if gspec.U(t, 4, "fname") == 0 {
 		c.Opts.Filename = "f.txt"
 	}
@@ -99,6 +100,15 @@ func commonTags(c *Case, ref *refpeg.Result) []string {
 	}
 	if len(c.Input) == 0 {
 		tags = append(tags, "empty_input")
+	}
+	if len(c.Input) >= 256 {
+		tags = append(tags, "input_256_or_longer")
+	}
+	if len(c.Input) >= 4096 {
+		tags = append(tags, "input_4096_or_longer")
+	}
+	if n := strings.Count(string(c.Input), "\n"); n >= 256 {
+		tags = append(tags, "lines_256_or_more")
 	}
 	return tags
 }
